@@ -65,7 +65,12 @@ TABLE = {
              "three co_return forms (temporary, variable, std::move(variable)) and every delivery form (join(), start()+wait(), co_await of the "
              "async or of a future, start(promise), future-returning functions, callback awaiter, detach): the specification's per-form table "
              "of legitimate copies (all 0) and PayloadIntact (the delivered object is never a copy nor a moved-from object, every payload is "
-             "destroyed exactly once) are compared with the copy count, moved-from flag and ctor/dtor balance observed after every step.",
+             "destroyed exactly once) are compared with the copy count, moved-from flag and ctor/dtor balance observed after every step. "
+             "Reference coroutines async<T&> are run through every delivery form, including the value-future conversions (future<V>(coro), "
+             "f << coro, a future<V> function returning the coroutine): the content the party observes and the ctor/dtor balance are compared and "
+             "the referent must stay intact (join() moving out of it was a defect of the pinned tree, fixed ae08cd1). A 2-thread model "
+             "(AsyncJoin.tla) of the blocking forms (join(), start()+wait()/join()/sync()) against completion on another thread is replayed in "
+             "all interleavings at the atomic operations on the bound future's slot; a refused subscription must not block.",
         note="bounds: <=4 coroutines per program, <=3 external futures, 343 programs / 5.1e4 states quick, 1615 programs / 2.4e5 states thorough with "
              "ASan+UBSan; full edge cover; pool.run(async) replayed as its body on a fresh thread (pool queueing/stopping is C11); TCB: TLC, the "
              "script interpreter and probes in harness/async_replay.cpp, vsched for the blocking join, GCC's coroutine lowering",
@@ -107,7 +112,11 @@ TABLE = {
              "that it is queued and resumed exactly once, and the replay compares the driver's own resumption count at every step (the pre-fix "
              "behaviour, /repo 283e427, is rejected by NoDoubleResume as a self-test). Typed histories are replayed with payload int and with a "
              "move-tracking payload: reads by conversion, const conversion and co_await occur in every order, each read must return the "
-             "attached, intact value, and only whole-object C++ moves may leave a value moved-from.",
+             "attached, intact value, and only whole-object C++ moves may leave a value moved-from. coro_queue::create_suspend_point(fn) is an "
+             "operation (fn readies the handles of one suspend point or none, then returns or throws; on return the new entries are collected "
+             "in the order the code produces, on throw they stay queued or are flushed while unwinding, older queue entries are never touched, "
+             "the exception reaches the caller), and so is resume.h parallel_resume() (every handle resumed exactly once by the detached "
+             "thread, which the replayer waits for; the returned value equals the intact attached value).",
         note="bounds: <=3 objects; <=5 handles exhaustive for any history length (6 in TLC-only runs); typed histories <=5 operations; boundary-biased "
              "histories <=7 operations over <=52 handles; each handle handed in once (self-merge / own handle in the list excluded); TCB: TLC, g++ 12 "
              "coroutine codegen, the replayer's probe/projection and its operator new[] counters; dummy coroutines do not re-enter the suspend "
@@ -373,7 +382,15 @@ TABLE = {
              "after each step the replayer compares slots, sizes, bookkeeping and new/delete counts with the model, and independently checks "
              "raw-address overlap, canaries, block sizes, double free and leaks (ASan/UBSan in thorough). The check derived a defect of the "
              "pinned tree as a TLC counterexample and confirmed it on the real code (reusable_storage::alloc released its block before "
-             "replacing _ptr; fixed in /repo), the pre-fix model is kept as a rejected self-test.",
+             "replacing _ptr; fixed in /repo), the pre-fix model is kept as a rejected self-test. Every policy is also checked as the base of "
+             "promise_extra_storage<T, Base> (a recording wrapper around each base shows that its dealloc is told the size its alloc was told). "
+             "Storage objects are constructed, move-constructed, move-assigned (both directions and self) and destroyed between frames: block and "
+             "capacity travel together, every block is released exactly once, frames on both objects fit. The owner of "
+             "reusable_buffer_storage's vector resizes, shrinks, empties, moves out and swaps it between frames. stack_storage objects are "
+             "prepared ahead and used later, bounded by the size they were prepared with whatever the shared state says since. A throwing "
+             "factory of the attached object is modelled in every combination: no object constructed or destroyed, the block back at the base "
+             "policy exactly once, the exception at the creator, the storage reusable (the pinned tree kept the block: second defect derived "
+             "by this check, fixed in /repo).",
         note="bounds: <=6 frames, <=3 live, 3 observed size classes, 2 threads, <=5 frames at operator new/delete grain, heap of 6 slots with "
              "lowest-free reuse; TCB: TLC, vsched token scheduler, harness arena allocator, g++ frame layout, libstdc++ vector growth; memory "
              "orders are C03; static_storage does not satisfy the Storage concept, cannot be instantiated and is not covered",
